@@ -73,6 +73,7 @@ func c05Files(root string) {
 	must(os.MkdirAll(filepath.Join(root, "dir"), 0755))
 	must(os.WriteFile(filepath.Join(root, "dir", "inner.txt"), []byte("inner"), 0644))
 	must(os.MkdirAll(filepath.Join(root, "other"), 0755))
+	must(os.WriteFile(filepath.Join(root, "other", "inner.txt"), []byte("other-inner"), 0644))
 	must(os.MkdirAll(filepath.Join(root, "Uploads"), 0755))
 	must(os.MkdirAll(filepath.Join(root, "Drop Box"), 0755))
 	must(os.WriteFile(filepath.Join(root, "Drop Box", "secret.txt"), []byte("dropped"), 0644))
@@ -106,21 +107,46 @@ type c05Kind struct {
 
 // c05Never: per kind, a state that must not be reached by a requester with the given bitmap whatever the
 // reply says (effects the differential comparison cannot see because the fully privileged run has them too).
-var c05Never = map[string]func(root string, bits [8]byte) string{
+var c05Never = map[string]func(wd *world.World, bits [8]byte) string{
 	// a "rename" whose new name contains a path separator is a move: without the move privilege the entry
 	// stays in its folder
-	"rename-folder-new-name-with-separator": func(root string, bits [8]byte) string {
+	"rename-folder-new-name-with-separator": func(wd *world.World, bits [8]byte) string {
+		root := wd.FileRoot
 		if _, err := os.Stat(filepath.Join(root, "other", "dir2")); err == nil && !ref.BitSet(bits, ref.PMoveFolder) {
 			return "the folder 'dir' is now 'other/dir2' although the requester may not move folders"
 		}
 		return ""
 	},
-	"rename-file-new-name-with-separator": func(root string, bits [8]byte) string {
+	"rename-file-new-name-with-separator": func(wd *world.World, bits [8]byte) string {
+		root := wd.FileRoot
 		if _, err := os.Stat(filepath.Join(root, "other", "g.txt")); err == nil && !ref.BitSet(bits, ref.PMoveFile) {
 			return "the file 'f.txt' is now 'other/g.txt' although the requester may not move files"
 		}
 		return ""
 	},
+}
+
+func init() {
+	// a rename or move onto a name that is taken makes the entry that had the name cease to exist: that is the
+	// delete privilege's effect
+	c05Never["rename-file-onto-existing-file"] = func(wd *world.World, bits [8]byte) string {
+		if b, _ := os.ReadFile(filepath.Join(wd.FileRoot, "t.txt")); string(b) != "target" && !ref.BitSet(bits, ref.PDeleteFile) {
+			return fmt.Sprintf("t.txt now holds %q: the file that had the name is gone although the requester may not delete files", b)
+		}
+		return ""
+	}
+	c05Never["move-file-onto-existing-file"] = func(wd *world.World, bits [8]byte) string {
+		if b, _ := os.ReadFile(filepath.Join(wd.FileRoot, "other", "inner.txt")); string(b) != "other-inner" && !ref.BitSet(bits, ref.PDeleteFile) {
+			return fmt.Sprintf("other/inner.txt now holds %q: the file that had the name is gone although the requester may not delete files", b)
+		}
+		return ""
+	}
+	c05Never["batch-rename-onto-existing-login"] = func(wd *world.World, bits [8]byte) string {
+		if a := wd.Srv.AccountManager.Get("guest"); (a == nil || a.Name != "Guest") && !ref.BitSet(bits, ref.PDeleteUser) {
+			return fmt.Sprintf("the account 'guest' is now %+v: the account that had the login is gone although the requester may not delete accounts", a)
+		}
+		return ""
+	}
 }
 
 func obf(s string) []byte { return ref.Obfuscate([]byte(s)) }
@@ -297,6 +323,15 @@ var c05Kinds = []c05Kind{
 	}, ""},
 	{"rename-file-new-name-with-separator", []int{ref.PRenameFile}, func(x c05Ctx) ref.Tx {
 		return ref.Tx{Type: ref.TSetFileInfo, Fields: []ref.Fld{ref.FS(ref.FFileName, "f.txt"), ref.FS(ref.FFileNewName, "other/g.txt")}}
+	}, ""},
+	{"rename-file-onto-existing-file", []int{ref.PRenameFile}, func(x c05Ctx) ref.Tx {
+		return ref.Tx{Type: ref.TSetFileInfo, Fields: []ref.Fld{ref.FS(ref.FFileName, "f.txt"), ref.FS(ref.FFileNewName, "t.txt")}}
+	}, ""},
+	{"move-file-onto-existing-file", []int{ref.PMoveFile}, func(x c05Ctx) ref.Tx {
+		return ref.Tx{Type: ref.TMoveFile, Fields: []ref.Fld{ref.FS(ref.FFileName, "inner.txt"), ref.F(ref.FFilePath, ref.PathBytes("dir")), ref.F(ref.FFileNewPath, ref.PathBytes("other"))}}
+	}, ""},
+	{"batch-rename-onto-existing-login", []int{ref.PModifyUser}, func(x c05Ctx) ref.Tx {
+		return ref.Tx{Type: ref.TUpdateUser, Fields: []ref.Fld{ref.F(ref.FData, subFields(ref.F(ref.FData, obf("vic")), ref.F(ref.FUserLogin, obf("guest")), ref.FS(ref.FUserName, "Victim"), ref.F(ref.FUserPassword, []byte{0}), ref.F(ref.FUserAccess, make([]byte, 8))))}}
 	}, ""},
 	{"move-file", []int{ref.PMoveFile}, func(x c05Ctx) ref.Tx {
 		return ref.Tx{Type: ref.TMoveFile, Fields: []ref.Fld{ref.FS(ref.FFileName, "f.txt"), ref.F(ref.FFileNewPath, ref.PathBytes("other"))}}
@@ -646,7 +681,7 @@ func c05Exec(w *explore.Worker, k c05Kind, bits [8]byte, rc c05Case) (o c05Obs, 
 		o.ObsInbox = canonTxs(obs.New())
 		o.TgtInbox = canonTxs(tgt.New())
 		if f := c05Never[k.Name]; f != nil {
-			o.Never = f(wd.FileRoot, bits)
+			o.Never = f(wd, bits)
 		}
 		after := c05Snapshot(wd, obs, x.uID)
 		if after == before {
